@@ -7,7 +7,7 @@ Open Scope Z_scope.
 (* The behaviour of /repo: all [false] = as written.  Set a flag to [true] when the
    corresponding repair is applied: fx_restart (Restart unlocks on the rejected path), fx_clamp
    (SetTimeoutCount clamps to the cap), fx_saturate (no increment past MaxInt64). *)
-Definition sm_code_fix : sm_fix := {| fx_restart := false; fx_clamp := false; fx_saturate := false |}.
+Definition sm_code_fix : sm_fix := {| fx_restart := true; fx_clamp := true; fx_saturate := true |}.
 
 Record sm_obs := { so_res : sm_res; so_phase : Z; so_fin : Z; so_tcount : Z; so_held : bool; so_shares : list Z }.
 
